@@ -118,7 +118,9 @@ class Obj:
 
 class Evaluator:
     def __init__(self, env: Optional[Dict[str, Any]] = None, funcs: Optional[Dict[str, Callable]] = None,
-                 consts: Optional[Dict[str, Any]] = None, defs: Optional[Dict[str, ast.AST]] = None):
+                 consts: Optional[Dict[str, Any]] = None, defs: Optional[Dict[str, ast.AST]] = None,
+                 hook: Optional[Callable] = None):
+        self.hook = hook  # hook(node, evaluator) -> value | NotImplemented ; consulted before interpretation
         self.defs = dict(defs or {})  # single-assignment locals: name -> defining expression
         self._depth = 0
         self.bound: Dict[str, Any] = dict(env or {})  # source text -> value
@@ -136,6 +138,10 @@ class Evaluator:
                 key = None
         if key is not None and key in self.bound and not (isinstance(node, ast.Name) and node.id in self.locals):
             return self.bound[key]
+        if self.hook is not None:
+            v = self.hook(node, self)
+            if v is not NotImplemented:
+                return v
         m = getattr(self, "_" + type(node).__name__, None)
         if m is None:
             raise Unfoldable(f"{type(node).__name__}: {key}")
